@@ -63,6 +63,7 @@ var xlateTargets = map[string][]string{
 		"buffer.Buffered", "buffer.addIndex", "buffer.Discard", "buffer.WriteByte", "decoderDict.WriteByte",
 		"encoderDict.DictLen", "encoderDict.Available", "encoderDict.Buffered",
 		"hashTableExponent", "hashTable.buffered", "hashTable.addIndex", "hashTable.putDelta", "hashTable.putEntry", "hashTable.getMatches",
+		"binTree.max", "binTree.min", "binTree.distance",
 	},
 	".": {"padLen", "readUvarint", "readSizeInBlockHeader", "readRecord", "verifyFlags"},
 }
@@ -212,6 +213,15 @@ func (x *xl) leanType(n ast.Node, t types.Type) string {
 	if sl, ok := t.(*types.Slice); ok {
 		if _, _, isInt := intInfo(sl.Elem()); isInt {
 			return "(Array " + x.leanType(n, sl.Elem()) + ")"
+		}
+		if nm := derefNamed(sl.Elem()); nm != nil {
+			if _, isPtr := sl.Elem().(*types.Pointer); !isPtr {
+				// a slice of completely representable structures
+				ns := x.structOf(nm)
+				if len(ns.fields) == nm.Underlying().(*types.Struct).NumFields() && len(ns.fields) > 0 {
+					return "(Array " + x.leanType(n, sl.Elem()) + ")"
+				}
+			}
 		}
 	}
 	x.fail(n, "unsupported type %s", t)
@@ -1640,6 +1650,30 @@ func (c *xctx) assign(v *ast.AssignStmt) string {
 	return strings.Join(lets, c.ind())
 }
 
+// hasLoopBreak: a `break` that leaves this loop (not one inside a nested switch / select / for)
+func hasLoopBreak(b *ast.BlockStmt) bool {
+	found := false
+	var walk func(n ast.Node, inner bool)
+	walk = func(n ast.Node, inner bool) {
+		ast.Inspect(n, func(m ast.Node) bool {
+			switch x := m.(type) {
+			case *ast.BranchStmt:
+				if x.Tok == token.BREAK && !inner {
+					found = true
+				}
+			case *ast.SwitchStmt, *ast.TypeSwitchStmt, *ast.SelectStmt, *ast.ForStmt, *ast.RangeStmt:
+				if m != n {
+					walk(m, true)
+					return false
+				}
+			}
+			return true
+		})
+	}
+	walk(b, false)
+	return found
+}
+
 func (c *xctx) forStmt(v *ast.ForStmt, rest func() string) string {
 	c.f.canFail = true
 	c.f.needsFuel = true
@@ -1720,7 +1754,22 @@ func (c *xctx) forStmt(v *ast.ForStmt, rest func() string) string {
 		strings.TrimPrefix(lname, "GoSrc."), strings.Join(typed, " "), retT, varT, body)
 	c.f.aux = append(c.f.aux, aux)
 	r := c.fresh("lr")
-	after := rest()
+	var after string
+	func() {
+		// `for { … }` that is left only by `return` and is the last statement of a function with unnamed results: the
+		// code after it is unreachable (Go accepts the missing return); elsewhere the code after the loop is translated
+		defer func() {
+			if rc := recover(); rc != nil {
+				xe, ok := rc.(xerr)
+				if ok && strings.Contains(xe.msg, "missing return") && v.Cond == nil && !hasLoopBreak(v.Body) {
+					after = "Go.Res.panic \"unreachable\""
+					return
+				}
+				panic(rc)
+			}
+		}()
+		after = rest()
+	}()
 	var okRet string
 	if c.inLoop {
 		okRet = "Go.Res.ok (Sum.inl " + r + ")"
@@ -1989,6 +2038,9 @@ func genGoSrc(dir string) error {
 				ft := st.Field(i).Type()
 				if at, ok := ft.(*types.Array); ok {
 					ft = at.Elem()
+				}
+				if st2, ok := ft.(*types.Slice); ok {
+					ft = st2.Elem()
 				}
 				if nm := derefNamed(ft); nm != nil && s.has[st.Field(i).Name()] {
 					emitStruct(nm.Obj().Name())
